@@ -666,28 +666,81 @@ Section Inv.
       + intros ?; cbv beta. apply open_part_ok.
   Qed.
 
+  (* ---- a body that closes the file it was given: nothing can be published any more ---- *)
+  Definition St_bclosed : stage := fun s f sc => St_any s f sc /\ f = FClosed.
+
+  Lemma bclosed_any s f sc : St_bclosed s f sc -> St_any s f sc.
+  Proof. intros (H & _). exact H. Qed.
+  Lemma bclosed_stable : istable St_bclosed.
+  Proof. intros s f sc k cnt m (H & Hf) Hn Hin. split; [eapply any_stable; eauto|exact Hf]. Qed.
+  Lemma bclosed_safe w : L St_bclosed w -> L Safe w.
+  Proof. intros ((H & _) & R). apply any_safe. split; [exact H|exact R]. Qed.
+
+  Definition closed_ev (e : ev) : Prop :=
+    match e with EWrite _ _ | EFlush | EFsync | EClose => True | _ => False end.
+
+  Lemma sem_closed e : closed_ev e -> sem_prem St_bclosed St_bclosed e.
+  Proof.
+    intros He um s f sc (Ha & ->). destruct e; cbn in He; try contradiction; cbn.
+    - exact Ha.
+    - exact Ha.
+    - exact Ha.
+    - split; [|reflexivity]. destruct Ha as (Hb & Ho & Hp). split; [exact Hb|]. cbn. auto.
+  Qed.
+
+  Lemma tr_closed e forced :
+    closed_ev e -> triple (L St_bclosed) (prim_f e forced) (fun _ => L St_bclosed) (fun _ => L Safe) (L Safe).
+  Proof. intro He. apply prim_stage; [apply bclosed_stable|apply bclosed_any|apply sem_closed; exact He]. Qed.
+
+  Lemma sem_bclose acc : sem_prem (St_open acc) St_bclosed EClose.
+  Proof.
+    unfold sem_prem.
+    intros um s f sc (Hb & (p & buf & Hf & Hp & Hv) & (Ho & Hfi & Hpu) & Hs). subst f. cbn.
+    pose proof Hb as (_ & _ & (Hlt & Hsep)).
+    split; [|reflexivity]. split; [|cbn; auto].
+    eapply base_file; [unfold set_vol; apply base_upd_ino; eauto|]. exact I.
+  Qed.
+
+  Lemma tr_bclose acc forced :
+    triple (L (St_open acc)) (prim_f EClose forced) (fun _ => L St_bclosed) (fun _ => L Safe) (L Safe).
+  Proof. apply prim_stage; [apply open_stable|apply open_any|apply sem_bclose]. Qed.
+
+  Lemma run_body_closed ops :
+    triple (L St_bclosed) (run_body ops) (fun _ => L St_bclosed) ES (L Safe).
+  Proof.
+    induction ops as [|o r IH]; cbn [run_body]; [apply t_ret; auto|].
+    destruct o; (eapply t_bind; [apply tr_closed; exact I|]; intros ?; cbv beta; exact IH).
+  Qed.
+
+  (* after the body: still writing (everything written so far accounted for), or closed by the body *)
+  Definition BodyPost (acc : bytes) : unit -> world -> Prop :=
+    fun _ w => L (St_open acc) w \/ L St_bclosed w.
+
   Lemma run_body_ok ops : forall acc,
-    triple (L (St_open acc)) (run_body ops) (fun _ => L (St_open (acc ++ new_content ops))) ES (L Safe).
+    triple (L (St_open acc)) (run_body ops) (BodyPost (acc ++ new_content ops)) ES (L Safe).
   Proof.
     induction ops as [|o r IH]; intro acc; cbn [run_body].
-    - apply t_ret. intros w H. cbn. rewrite app_nil_r. exact H.
-    - destruct o as [d k|].
+    - apply t_ret. intros w H. left. cbn. rewrite app_nil_r. exact H.
+    - destruct o as [d k| |].
       + eapply t_bind; [apply tr_write|]. intros ?; cbv beta.
         eapply t_conseq; [apply (IH (acc ++ d))|idc| |idc|idc].
-        intros ? w H. cbn [new_content flat_map]. fold (new_content r). rewrite app_assoc. exact H.
+        intros ? w H. unfold BodyPost in *. cbn [new_content flat_map]. fold (new_content r). rewrite app_assoc. exact H.
       + eapply t_bind with (Q := fun _ => L (St_open acc)).
         * eapply t_conseq; [apply tr_flush|idc| |idc|idc].
           intros ? w (H & R). split; [apply flushed_open; exact H|exact R].
         * intros ?; cbv beta. eapply t_conseq; [apply (IH acc)|idc| |idc|idc].
-          intros ? w H. cbn [new_content flat_map]. exact H.
+          intros ? w H. unfold BodyPost in *. cbn [new_content flat_map]. exact H.
+      + eapply t_bind; [apply tr_bclose|]. intros ?; cbv beta.
+        eapply t_conseq; [apply (run_body_closed r)|idc| |idc|idc].
+        intros ? w H. right. exact H.
   Qed.
 
   Lemma body_ok ops raises :
-    triple (L (St_open [])) (body ops raises) (fun _ => L (St_open (new_content ops))) ES (L Safe).
+    triple (L (St_open [])) (body ops raises) (BodyPost (new_content ops)) ES (L Safe).
   Proof.
     unfold body. eapply t_bind; [apply (run_body_ok ops [])|]. intros ?; cbv beta.
     destruct raises.
-    - apply t_raise. intros w H. eapply open_safe. exact H.
+    - apply t_raise. intros w [H|H]; [eapply open_safe; exact H|apply bclosed_safe; exact H].
     - apply t_ret. auto.
   Qed.
 
@@ -747,6 +800,34 @@ Section Inv.
       apply cleanup_raise.
   Qed.
 
+  (* the body closed the file: the flush in __exit__ fails (ValueError), the handler cleans up *)
+  Lemma exit_false_closed :
+    triple (L St_bclosed) (exit_ c false) (fun _ => L St_done) ES (L Safe).
+  Proof.
+    unfold exit_. apply t_getfile. intro f.
+    eapply t_bind with (Q := fun _ _ => False).
+    - assert (H : triple (L St_bclosed)
+                    (catch (prim EFlush;;; prim EFsync;;; prim EClose)
+                           (fun e => catch (prim EClose) (fun _ => ret tt);;; rm_part_file c;;; raise e))
+                    (fun _ _ => False) ES (L Safe)).
+      { eapply t_catch with (E' := ES); [|intro e; apply sync_handler].
+        eapply t_bind with (Q := fun _ _ => False); [|intros ?; cbv beta; apply t_false].
+        eapply t_conseq.
+        - apply (prim_rule St_bclosed (fun _ _ _ => False) St_any EFlush None bclosed_stable).
+          + intros um s f0 sc H. apply any_after_fault. apply bclosed_any. exact H.
+          + intros um s f0 sc (Ha & ->). cbn. exact Ha.
+        - idc.
+        - intros ? w (H & _). exact H.
+        - intros e w H. apply any_safe. exact H.
+        - intros w H. apply bclosed_safe. exact H. }
+      destruct f.
+      + eapply t_conseq; [apply (t_false (ret tt) (fun _ _ => False) ES (L Safe))| |idc|idc|idc].
+        intros w (((_ & Hf) & _) & Hfile). congruence.
+      + eapply t_conseq; [exact H|tauto|idc|idc|idc].
+      + eapply t_conseq; [exact H|tauto|idc|idc|idc].
+    - intros ?; cbv beta. apply t_false.
+  Qed.
+
   Lemma save_ok ops raises :
     new = new_content ops ->
     triple (L St_init) (save c ops raises) (fun _ => L St_done) ES (L Safe).
@@ -754,7 +835,9 @@ Section Inv.
     intro Hn. unfold save. eapply t_bind; [apply setup_ok|]. intros ?; cbv beta.
     intros w Hw. pose proof (body_ok ops raises w Hw) as Hb.
     destruct (body ops raises w) as [[x|e|] w'].
-    - apply exit_false_ok. rewrite Hn. exact Hb.
+    - destruct Hb as [Hb|Hb].
+      + apply exit_false_ok. rewrite Hn. exact Hb.
+      + apply exit_false_closed. exact Hb.
     - assert (T : triple (L Safe) (exit_ c true ;;; raise e) (fun _ : unit => L St_done) ES (L Safe)).
       { eapply t_bind with (Q := QS); [apply exit_true_ok|]. intros ?; cbv beta. apply t_raise. auto. }
       apply T. exact Hb.
